@@ -216,11 +216,10 @@ func wrapBranch(name string, message profile.Message, branch BranchRegoResult, m
 			traceResultPath, _ = iriExpander.Expand(r.Path)
 		}
 		matchesLine := fmt.Sprintf("  %s := trace(\"%s\",\"%s\",%s,%s)", bindingResult, r.ConstraintId(), traceResultPath, r.TraceNode, r.TraceValue)
+		if r.CustomMessage {
+			customMessage = true
+		}
 		for _, l := range r.Rego {
-			if strings.Contains(l, "$message") {
-				customMessage = true
-				l = strings.ReplaceAll(l, "$message", "message")
-			}
 			acc = append(acc, "  "+l)
 		}
 		acc = append(acc, matchesLine)
